@@ -456,6 +456,8 @@ class Evaluator:
             if m is not None and any(ast.unparse(d) == "classmethod" for d in m.decorator_list):
                 return self.invoke(m, [ClassRef(cname)] + args, kwargs)
             raise Unsupported(f"class attribute call {cname}.{f.attr}")
+        if isinstance(f, ast.Name) and f.id not in env and callable(self.globals.get(f.id)):
+            return self.globals[f.id](*args, **kwargs)
         if isinstance(f, ast.Name):
             n = f.id
             if n in self.functions and self._call_depth < 3:
